@@ -35,7 +35,8 @@ ASSUMPTIONS = [
 REQUIRED = {"quiescent_checks": 5000, "centre_checks": 2000,
             "rule_calls": 20000, "replace_checks": 1000}
 MIN_NONTRIVIAL = {"quick": 30, "thorough": 200}
-PLAN = [("runs", 700, 10000), ("radii", 500, 7000), ("rules", 60, 900)]
+PLAN = [("runs", 700, 10000), ("radii", 500, 7000), ("rules", 60, 900),
+        ("repotests", 1, 1)]
 EPS = np.finfo(float).eps
 
 
@@ -188,6 +189,10 @@ class Monitor:
 
     # -- hooks
     def on_tr_init(self, run, tr, options):
+        # a new TrustRegion = a new run (several per context in the
+        # repository's tests): histories restart
+        self.res_hist = []
+        self.pen_hist = []
         self.rf = float(options["radius_final"])
         self.quiescent(tr, "init")
         self.centre(tr, "init")
@@ -415,4 +420,9 @@ def run_rules(case):
 def run_case(case):
     if case["fam"] == "rules":
         return run_rules(case)
+    if case["fam"] == "repotests":
+        from vlib import repotests
+        viols, counts = repotests.run(ID)
+        return e2e.record(case, viols, tags=["fam:repotests"], counts=counts,
+                          nt="repotests")
     return run_real(case)
